@@ -244,8 +244,75 @@ def _trace_event(args):
             if r1["ok"] and r3["ok"] and r1["cur"] == len(r1["kinds"]) and r3["cur"] == len(r3["kinds"]) and syntax.strip_groups(r1["tree"]) != syntax.strip_groups(r3["tree"]):
                 problems.append(({"clause": "redundant_parentheses_changed_tree"}, dict(base, other=t3)))
             if md_ok and md3_ok and md != md3:
-                problems.append(({"clause": "redundant_parentheses_changed_model"}, dict(base, other=t3, a=md, b=md3)))
+                flag = _literal_in_redundant_group(want, list(lexs)) if want else False
+                problems.append(({"clause": "redundant_parentheses_changed_model", "intercept_literal_in_group": bool(flag)}, dict(base, other=t3, a=md, b=md3)))
     return ev, problems, mutated, text
+
+
+def _literal_in_redundant_group(tree, lexs_no_paren):
+    """Does a redundant grouping enclose an additive chain that contains an intercept literal
+    (0 / 1)?  The scanner's implicit '1 +' stays outside such a group (KF_C01_paren_intercept)."""
+    it = iter(lexs_no_paren)
+    found = [False]
+
+    def chain_has_literal(t):
+        # t is annotated: atoms carry their lexeme
+        if t[0] == "bin" and t[1] in ("PLUS", "MINUS"):
+            return chain_has_literal(t[2]) or chain_has_literal(t[3])
+        if t[0] == "un":
+            return chain_has_literal(t[2])
+        return t[0] == "atom" and t[1] == "NUMBER" and t[2] in ("0", "1")
+
+    def ann(t):
+        tag = t[0]
+        if tag == "atom":
+            return ["atom", t[1], next(it)]
+        if tag == "sub":
+            next(it)
+            next(it)
+            inner = ann(t[1])
+            next(it)
+            return ["sub", inner]
+        if tag == "grp":
+            next(it)
+            inner = ann(t[1])
+            next(it)
+            if chain_has_literal(inner):
+                found[0] = True
+            return ["grp", inner]
+        if tag == "un":
+            next(it)
+            return ["un", t[1], ann(t[2])]
+        if tag == "bin":
+            l = ann(t[2])
+            next(it)
+            return ["bin", t[1], l, ann(t[3])]
+        if tag == "assign":
+            next(it)
+            next(it)
+            return ["assign", t[1], ann(t[2])]
+        if tag == "call":
+            if t[3]:
+                next(it)
+                a = ann(t[2][0])
+                next(it)
+                return ["call", t[1], [a], True]
+            c = ann(t[1])
+            next(it)
+            args = []
+            for k, a in enumerate(t[2]):
+                if k:
+                    next(it)
+                args.append(ann(a))
+            next(it)
+            return ["call", c, args, False]
+        return t
+
+    try:
+        ann(tree)
+    except StopIteration:
+        return False
+    return found[0]
 
 
 def _graft_intercept(t):
